@@ -53,8 +53,8 @@ GNext ==
      \/ \E n \in Valid, h \in Hows : SetValid(n) /\ Step(Op("set", n, "", h, ""), {ObsNow})
      \/ \E n \in Invalid, h \in Hows : SetInvalid(n) /\ Step(Op("set", n, "", h, ""), {ObsNow})
      \/ \E h \in Hows : SetUnknown /\ Step(Op("setunknown", 1, "", h, ""), {ObsNow})
-     \/ \E k \in WrongKinds : SetWrongReject(k) /\ Step(Op("setwrong", 0, k, "name", ""), AltsWrong(k))
-     \/ \E k \in WrongKinds : SetWrongConvert(k) /\ Step(Op("setwrong", 0, k, "name", ""), AltsWrong(k))
+     \/ \E k \in WrongKinds, h \in Hows : SetWrongReject(k) /\ Step(Op("setwrong", 0, k, h, ""), AltsWrong(k))
+     \/ \E k \in WrongKinds, h \in Hows : SetWrongConvert(k) /\ Step(Op("setwrong", 0, k, h, ""), AltsWrong(k))
      \/ \E n \in Valid : Update(n) /\ Step(Op("update", n, "", "", ""), {ObsNow})
      \/ \E n \in Invalid : UpdateInvalid(n) /\ Step(Op("update", n, "", "", ""), {ObsNow})
      \/ \E s \in Subs : Subscribe(s) /\ Step(Op("sub", 0, "", "", s), {ObsNow})
